@@ -17,8 +17,8 @@ package x
 //@   ensures result != nil
 
 //@ func WithToken
-//@   trusted
-//@   pure
+//@   props C07 C13
+//@   modifies nothing
 //@   ensures result != nil
 
 // ASSUMED: the options are applied in order; Size is what WithSize was given (>= 0 by its precondition)
